@@ -36,14 +36,24 @@ class NameMappingRequest(LocatedRequest[Optional[KeyPath]]):
     generated_key: Key
 
 
+def _as_plain_key(key: Key) -> Key:
+    # keys are pasted into generated code via repr(), an instance of str or int subclass (e.g. member of enum with mixin)
+    # may print as anything, so it is replaced with equal object of exact builtin type
+    if isinstance(key, str) and type(key) is not str:
+        return str.__str__(key)
+    if isinstance(key, int) and type(key) not in (int, bool):
+        return int.__index__(key)
+    return key
+
+
 def resolve_map_result(generated_key: Key, map_result: MapResult) -> Optional[KeyPath]:
     if map_result is None:
         return None
     if isinstance(map_result, (str, int)):
-        return (map_result, )
+        return (_as_plain_key(map_result), )
     if isinstance(map_result, EllipsisType):
         return (generated_key,)
-    return tuple(generated_key if isinstance(key, EllipsisType) else key for key in map_result)
+    return tuple(generated_key if isinstance(key, EllipsisType) else _as_plain_key(key) for key in map_result)
 
 
 class NameMappingProvider(MethodsProvider, ABC):
